@@ -132,12 +132,12 @@ func (m mapConf) GetLong(key string, def int64) int64 {
 	return def
 }
 func (m mapConf) GetStringArray(key string, def string, deli string) []string { return nil }
-func (m mapConf) GetStringHashSet(key, def, deli string) []int32               { return nil }
-func (m mapConf) GetStringHashCodeSet(key, def, deli string) []int32           { return nil }
-func (m mapConf) GetFloat(key string, def float32) float32                     { return def }
-func (m mapConf) SetValues(v *map[string]string)                               {}
-func (m mapConf) ToString() string                                             { return fmt.Sprint(map[string]string(m)) }
-func (m mapConf) String() string                                               { return m.ToString() }
+func (m mapConf) GetStringHashSet(key, def, deli string) []int32              { return nil }
+func (m mapConf) GetStringHashCodeSet(key, def, deli string) []int32          { return nil }
+func (m mapConf) GetFloat(key string, def float32) float32                    { return def }
+func (m mapConf) SetValues(v *map[string]string)                              {}
+func (m mapConf) ToString() string                                            { return fmt.Sprint(map[string]string(m)) }
+func (m mapConf) String() string                                              { return m.ToString() }
 
 // levelOf maps the four level names to the numeric levels of logger.Logger (error 3 … debug 0).
 func levelOf(s string) int {
